@@ -7,7 +7,7 @@ for d in /verif/seeded/*${1}*/; do
   name=$(basename "$d"); prop=$(echo "$name" | cut -c1-3)
   rm -rf "$sc/repo"; cp -r /repo "$sc/repo"
   (cd "$sc/repo" && git apply "$d/patch.diff") || { echo "$name: patch does not apply"; continue; }
-  out=$(/verif/bin/govc check -repo "$sc/repo" -prop "$prop" -tier quick -known /verif/known_findings.json -replays "$sc/replays" -evidence "$sc/ev.json" 2>&1)
+  out=$(VERIF_REPO="$sc/repo" VERIF_EVIDENCE="$sc" VERIF_REPLAYS="$sc/replays" /verif/check "$prop" quick 2>&1 | grep -v "^info")
   n=$(echo "$out" | grep -c "^VIOLATION property=$prop")
   first=$(echo "$out" | grep "^FAILED" | head -1 | cut -c1-160)
   if [ "$n" -gt 0 ]; then echo "caught  $name ($n): $first"; else echo "MISSED  $name: $(echo "$out" | tail -1 | cut -c1-120)"; fi
